@@ -144,9 +144,19 @@ var hlslKnownDefects = map[string]map[string]string{
 	"nested arrays and private initialisers": {"*": "is not an HLSL declarator"},
 	// H8 (front end): the user function "vecs" is lowered to a vector constructor int4(int3, int3).
 	"function named vecs": {"*": "constructor int4 needs exactly 4 components, got 6"},
+	// H1 again (dedicated case): asuint(sign(x)) stores the int result of HLSL's sign().
+	"sign of floats and ints": {"*": "mismatch: buffer [0 0] word 0 = 0xffffffff"},
+	// H3 again: unpack4x8snorm(0x80) = -128 / 127 = -1.007874 without the clamp.
+	"unpack4x8snorm of -128": {"*": "mismatch: buffer [0 0] word 0 = 0xbf810204"},
+	// H7 again: also one-dimensional private arrays ("static uint[3] pa = ...").
+	"one-dimensional private and workgroup arrays": {"*": "is not an HLSL declarator"},
+	// H9: u.am[j] with a dynamic j on a uniform array<matCx2, N> is written
+	// "__get_col_of_mat4x2(u.am, j)": the array is passed where one __mat4x2 is expected.
+	"dynamic index into a uniform array of matCx2": {"*": `no overload of function "__get_col_of_mat4x2" matches argument types (__mat4x2[2], int)`},
 	// Not a defect: ZeroInitializeWorkgroupMemory=false intentionally drops WGSL's zero
 	// initialisation; the read of uninitialised groupshared memory is reported as poison.
 	"workgroup variables are zero initialised and per workgroup": {"sm62-fake-loopbound-nozero": "read of a groupshared variable that was never written"},
+	"atomics signed and sub": {"sm62-fake-loopbound-nozero": "read of a groupshared variable that was never written"},
 }
 
 // hlslSlotFor maps a WGSL resource to the register the HLSL text must use.
